@@ -18,6 +18,7 @@ import (
 	"errors"
 	"fmt"
 	"io"
+	"math/big"
 	"net/http"
 	"net/http/httptest"
 	"os"
@@ -25,6 +26,7 @@ import (
 	"strconv"
 	"strings"
 	"sync"
+	"sync/atomic"
 	"testing"
 	"time"
 
@@ -158,7 +160,12 @@ func (t *c01tab) did(i int) int {
 func (t *c01tab) coq() string {
 	xs := make([]string, len(t.items))
 	for i, b := range t.items {
-		xs[i] = "(" + verifhlib.Bytes(b) + ", " + strconv.Itoa(t.did(i)) + ")"
+		// the bytes as one little-endian base-256 number (one token instead of len(b): Coq parses it much faster)
+		rev := make([]byte, len(b))
+		for j, x := range b {
+			rev[len(b)-1-j] = x
+		}
+		xs[i] = fmt.Sprintf("(%d, %s, %d)", len(b), new(big.Int).SetBytes(rev).String(), t.did(i))
 	}
 	return verifhlib.List(xs)
 }
@@ -220,14 +227,14 @@ type c01env struct {
 	drains    int // drain iterations that found an item
 	seen      bool
 	tags      map[string]bool
+	prev      []string // the previous operation's direct views
 	closeFn   func()
 }
 
-var c01seq int
+var c01seq int64
 
 func c01newEnv(ctx *verifhlib.Ctx, cfg c01cfg, lenchk bool, blobs [][]byte) *c01env {
-	c01seq++
-	root := filepath.Join(ctx.Tmp, fmt.Sprintf("c01-%d", c01seq))
+	root := filepath.Join(ctx.Tmp, fmt.Sprintf("c01-%d", atomic.AddInt64(&c01seq, 1)))
 	up, ca := filepath.Join(root, "upload"), filepath.Join(root, "cache")
 	for _, d := range []string{up, ca} {
 		if err := os.MkdirAll(d, 0775); err != nil {
@@ -439,10 +446,22 @@ func (e *c01env) record(op, kind, out string) {
 	}
 	e.ops = append(e.ops, op)
 	if d, h := verifhlib.List(dv), verifhlib.List(hv); d == h {
-		e.obs = append(e.obs, "OB "+out+" "+d)
+		// only the positions that changed since the previous operation
+		var ch []string
+		for i := range dv {
+			prev := "V0"
+			if e.prev != nil {
+				prev = e.prev[i]
+			}
+			if dv[i] != prev {
+				ch = append(ch, fmt.Sprintf("(%d, %s)", i, dv[i]))
+			}
+		}
+		e.obs = append(e.obs, "OBD "+out+" "+verifhlib.List(ch))
 	} else {
 		e.obs = append(e.obs, "OB2 "+out+" "+d+" "+h)
 	}
+	e.prev = dv
 	e.hist = append(e.hist, kind)
 }
 
@@ -1186,74 +1205,105 @@ func c01probeLenchk(ctx *verifhlib.Ctx) bool {
 	return !e.cas.CheckInMemCache(nm)
 }
 
-func (e *c01env) emit(ctx *verifhlib.Ctx, kind string) {
+func (e *c01env) result(kind string) verifhlib.Case {
 	sample := map[string]interface{}{"mem": e.cfg.mem, "max_size": e.cfg.max, "skip": e.cfg.skip, "ops": e.ops}
 	var tags []string
 	for t := range e.tags {
 		tags = append(tags, t)
 	}
-	ctx.Emit(verifhlib.Case{Coq: e.coq(), NT: e.seen && e.oks >= 1 && (e.rejects >= 1 || e.drains >= 1), Kind: kind,
+	return verifhlib.Case{Coq: e.coq(), NT: e.seen && e.oks >= 1 && (e.rejects >= 1 || e.drains >= 1), Kind: kind,
 		Key: fmt.Sprintf("%v|%s|%s", e.cfg, e.tab.coq(), strings.Join(e.ops, ";")), Hist: e.hist, Sample: sample, Incon: e.incon,
-		Tags: tags})
+		Tags: tags}
 }
 
 func c01driver(ctx *verifhlib.Ctx) {
 	r := verifhlib.NewRng(ctx.Seed)
 	lenchk := c01probeLenchk(ctx)
-	n := 0
-	for _, s := range c01seeds() {
-		e := c01newEnv(ctx, s.cfg, lenchk, s.blobs)
-		e.runAll(s.ops)
-		e.emit(ctx, s.name)
-		e.closeFn()
-		n++
-	}
 	maxLen := 12
 	if ctx.Tier == "thorough" {
 		maxLen = 30
 	}
-	only := map[int]bool{} // development aid: VERIF_C01_ONLY=i,j runs just these generated cases
+	only := map[int]bool{} // development aid: VERIF_C01_ONLY=i,j runs just these cases
 	for _, f := range strings.Split(os.Getenv("VERIF_C01_ONLY"), ",") {
 		if i, err := strconv.Atoi(f); err == nil {
 			only[i] = true
 		}
 	}
-	for ; n < ctx.N; n++ {
+	// cases are independent (own store, own directories, own generator state): run them on a few
+	// workers and emit in case order
+	var jobs []func() verifhlib.Case
+	for _, s := range c01seeds() {
+		s := s
+		jobs = append(jobs, func() verifhlib.Case {
+			e := c01newEnv(ctx, s.cfg, lenchk, s.blobs)
+			defer e.closeFn()
+			e.runAll(s.ops)
+			return e.result(s.name)
+		})
+	}
+	for n := len(jobs); n < ctx.N; n++ {
 		cr := r.Fork()
-		if len(only) > 0 && !only[n] {
-			continue
+		jobs = append(jobs, func() verifhlib.Case { return c01random(ctx, cr, lenchk, maxLen) })
+	}
+	out := make([]*verifhlib.Case, len(jobs))
+	next := int64(-1)
+	var wg sync.WaitGroup
+	for w := 0; w < 6; w++ {
+		wg.Add(1)
+		go func() {
+			defer wg.Done()
+			for {
+				i := int(atomic.AddInt64(&next, 1))
+				if i >= len(jobs) {
+					return
+				}
+				if len(only) > 0 && !only[i] {
+					continue
+				}
+				c := jobs[i]()
+				out[i] = &c
+			}
+		}()
+	}
+	wg.Wait()
+	for _, c := range out {
+		if c != nil {
+			ctx.Emit(*c)
 		}
-		cfg := c01genCfg(cr)
-		blobs := c01genBlobs(cr, ctx.Tier == "thorough")
-		e := c01newEnv(ctx, cfg, lenchk, blobs)
-		g := &c01gen{r: cr, e: e, blobs: blobs}
-		k := cr.Range(3, maxLen)
-		for i := 0; i < k; i++ {
-			o := g.next()
-			e.exec(&o)
-			if o.k == "ustart" {
-				if _, started := e.uids[o.uid]; !started { // refused: nothing to patch or commit
-					for j, u := range g.open {
-						if u.uid == o.uid {
-							g.open = append(g.open[:j], g.open[j+1:]...)
-							break
-						}
+	}
+}
+
+func c01random(ctx *verifhlib.Ctx, cr *verifhlib.Rng, lenchk bool, maxLen int) verifhlib.Case {
+	cfg := c01genCfg(cr)
+	blobs := c01genBlobs(cr, ctx.Tier == "thorough")
+	e := c01newEnv(ctx, cfg, lenchk, blobs)
+	defer e.closeFn()
+	g := &c01gen{r: cr, e: e, blobs: blobs}
+	k := cr.Range(3, maxLen)
+	for i := 0; i < k; i++ {
+		o := g.next()
+		e.exec(&o)
+		if o.k == "ustart" {
+			if _, started := e.uids[o.uid]; !started { // refused: nothing to patch or commit
+				for j, u := range g.open {
+					if u.uid == o.uid {
+						g.open = append(g.open[:j], g.open[j+1:]...)
+						break
 					}
 				}
 			}
 		}
-		// suffix: let the drain finish so that what was in memory shows up on disk
-		for i := 0; i < 3 && e.cas.VerifC01QueueLen() > 0; i++ {
-			e.exec(&c01op{k: "drain", envok: true})
-		}
-		kind := "random-disk"
-		if cfg.mem {
-			kind = "random-mem"
-		}
-		if cfg.skip {
-			kind = "random-skip"
-		}
-		e.emit(ctx, kind)
-		e.closeFn()
 	}
+	// suffix: let the drain finish so that what was in memory shows up on disk
+	for i := 0; i < 3 && e.cas.VerifC01QueueLen() > 0; i++ {
+		e.exec(&c01op{k: "drain", envok: true})
+	}
+	kind := "random-disk"
+	if cfg.mem {
+		kind = "random-mem"
+	}
+	if cfg.skip {
+		kind = "random-skip"
+	}
+	return e.result(kind)
 }
